@@ -188,6 +188,7 @@ def rand_op(rng):
         f"variant:{r(10)}", f"alias:{r(12)}", f"param:{r(30)}", f"rename:{r(40)}",
         f"ins:{r(60)}:{rng.choice(INS_KINDS)}:{r(1000)}", f"ins:{r(60)}:{rng.choice(INS_KINDS)}:{r(1000)}",
         f"dup:{r(60)}:{r(60)}", f"swap:{r(60)}:{r(60)}", f"doc:{r(60)}", "innerattr", f"crossns:{r(40)}",
+        f"vis:{r(40)}:{r(3)}", f"vis:{r(40)}:{r(3)}",
     ])
 
 
@@ -210,7 +211,8 @@ def gen_edits(rng, family):
         return ",".join([f"retype:{r(8)}"] + ([f"body:{r(30)}"] if r(2) else []))
     if family == "rewrite":
         return ",".join(rng.choice([f"body:{r(30)}", f"fields:{r(10)}", f"variant:{r(10)}", f"alias:{r(12)}",
-                                    f"param:{r(30)}", f"doc:{r(60)}"]) for _ in range(rng.randint(1, 6)))
+                                    f"param:{r(30)}", f"doc:{r(60)}", f"vis:{r(40)}:{r(3)}", f"vis:{r(40)}:{r(3)}"])
+                        for _ in range(rng.randint(1, 6)))
     if family == "insert":
         return ",".join(f"ins:{r(60)}:{rng.choice(INS_KINDS)}:{r(1000)}" for _ in range(rng.randint(1, 6)))
     if family == "mixed":
